@@ -24,13 +24,14 @@ inductive Val
 
 /-- exception classes the real code can let escape -/
 inductive Raise
-  | keyError | valueError | typeError | attributeError | runtimeError
+  | keyError | valueError | typeError | attributeError | runtimeError | lookupError | assertionError
   | unsupported   -- not a Python exception: a `%` conversion outside the modelled fragment
   deriving DecidableEq, Repr, Inhabited
 
 def Raise.name : Raise → String
   | .keyError => "KeyError" | .valueError => "ValueError" | .typeError => "TypeError"
   | .attributeError => "AttributeError" | .runtimeError => "RuntimeError"
+  | .lookupError => "LookupError" | .assertionError => "AssertionError"
   | .unsupported => "Unsupported"
 
 /-! ### Python `str()` of the substituted values -/
